@@ -256,3 +256,38 @@ Example C02_NextOne_nonvacuous :
   Select32 c02_ex [0; 32] 34 = Some (192, 256) /\ NextOne c02_ex 193 256 = Some (-1) /\
   Rank64 c02_ex (IndexRank64 c02_ex true) 193 = Some (35, 0) /\ zlen (all_ones c02_ex) = 35.
 Proof. vm_compute. intuition congruence. Qed.
+
+(** * widened: select against ToArray (toarray.go, model in Model/BitmapOf.v) *)
+From Low Require Import Model.BitmapOf Proofs.SelectToArray.
+
+(** ToArray returns the ascending list of the 1-positions (the vocabulary of every theorem above) *)
+Theorem C02_ToArray_is_all_ones : forall ws, ToArray ws = Some (all_ones ws).
+Proof. exact c02_ToArray_all_ones. Qed.
+Print Assumptions C02_ToArray_is_all_ones.
+
+(** Select32 / Select32R64 with index i return elements i and i+1 of what ToArray returns *)
+Theorem C02_Select32_nth_ToArray : forall ws sidx ta i, words_ok ws ->
+  IndexSelect32 ws = Some sidx -> ToArray ws = Some ta -> 0 <= i < zlen ta ->
+  Select32 ws sidx i =
+  Some (nth (Z.to_nat i) ta 0, if i + 1 <? zlen ta then nth (Z.to_nat (i + 1)) ta 0 else 64 * zlen ws).
+Proof. exact Select32_nth_ToArray. Qed.
+Print Assumptions C02_Select32_nth_ToArray.
+
+Theorem C02_Select32R64_nth_ToArray : forall ws sidx ridx ta i, words_ok ws ->
+  IndexSelect32R64 ws = Some (sidx, ridx) -> ToArray ws = Some ta -> 0 <= i < zlen ta ->
+  Select32R64 ws sidx ridx i =
+  Some (nth (Z.to_nat i) ta 0, if i + 1 <? zlen ta then nth (Z.to_nat (i + 1)) ta 0 else 64 * zlen ws).
+Proof. exact Select32R64_nth_ToArray. Qed.
+Print Assumptions C02_Select32R64_nth_ToArray.
+
+(** the select index is every 32nd element of ToArray *)
+Theorem C02_IndexSelect32_of_ToArray : forall ws ta, ToArray ws = Some ta ->
+  IndexSelect32 ws = Some (map (fun k => nth (32 * k) ta 0) (seq 0 ((length ta + 31) / 32))).
+Proof. exact IndexSelect32_of_ToArray. Qed.
+Print Assumptions C02_IndexSelect32_of_ToArray.
+
+Example C02_ToArray_nonvacuous :
+  ToArray [5; 0; 2^63] = Some [0; 2; 191] /\ IndexSelect32 [5; 0; 2^63] = Some [0] /\
+  Select32 [5; 0; 2^63] [0] 1 = Some (2, 191) /\ Select32 [5; 0; 2^63] [0] 2 = Some (191, 192) /\
+  zlen (all_ones c02_ex) = 35 /\ IndexSelect32 c02_ex = Some [0; 32].
+Proof. vm_compute. intuition congruence. Qed.
